@@ -39,7 +39,10 @@ def _render(ctx, toks):
             ch = t[i]
             if ch in "NQ":
                 k += 1
-                if ch == "Q":
+                if ch == "Q" and prev in ("Q", "0.0.0.255") and t == "Q":
+                    # the mask of an address is structure (it drives list shapes): a few concrete masks incl. invalid ones
+                    pieces.append(ctx.pick(f"mask{k}", ["0.0.0.255", "0.0.1.3", "255.255.255.0", "300.1.1.1", "0.0.0.0"]))
+                elif ch == "Q":
                     octs = [ctx.fresh(f"n{k}_{j}", 0, 1 << 40) if j == 3 else ctx.fresh(f"n{k}_{j}", 0, 255) for j in range(4)]
                     pieces.append(T.quad_of_octets(octs))
                 elif prev in ("gt", "lt", "neq") and t == "N":
@@ -110,6 +113,7 @@ def h_ctor(ctx):
         ctx.claim("rendered-text-accepted-again", True)
         return None
     ctx.observe("line2", again.line)
+    ctx.claim("returned-or-documented-error", False)
     return None
 
 
@@ -143,6 +147,7 @@ def h_func(ctx):
     ctx.observe("n", len(out))
     for o in out:
         ctx.observe("line", o.line)
+    ctx.claim("returned-or-documented-error", False)
     return None
 
 
@@ -163,6 +168,7 @@ def _soups(tier, seed):
             p = list(t)
             rnd.shuffle(p)
             out.append(p)
+    out = [["deny", "ip", "any", "any"]] + out
     seen, res = set(), []
     for s in out:
         if tuple(s) not in seen:
